@@ -7,6 +7,7 @@ import (
 	"os"
 	"sort"
 	"strings"
+	"syscall"
 
 	"verif/harness/mc"
 )
@@ -53,6 +54,7 @@ func main() {
 		if len(os.Args) < 4 || innerParts[id] == nil {
 			os.Exit(2)
 		}
+		limitMemory()
 		for _, ip := range innerParts[id]() {
 			if ip.Name == os.Args[3] {
 				os.Exit(mc.RunPartWire(id, ip))
@@ -74,4 +76,20 @@ func main() {
 		os.Exit(mc.RunReplay(id, parts, os.Args[3]))
 	}
 	os.Exit(2)
+}
+
+// limitMemory applies the address-space limit the parent asked for (guarded parts: an allocation sized by a
+// parameter then fails at once instead of eating the machine).
+func limitMemory() {
+	v := os.Getenv("VERIF_MEM_LIMIT_MB")
+	if v == "" {
+		return
+	}
+	var mb uint64
+	fmt.Sscan(v, &mb)
+	if mb == 0 {
+		return
+	}
+	lim := syscall.Rlimit{Cur: mb << 20, Max: mb << 20}
+	_ = syscall.Setrlimit(syscall.RLIMIT_AS, &lim)
 }
